@@ -360,3 +360,44 @@ pub fn find_vertices(tracks: Vec<Track>) -> VertexingResult {
 
 #[cfg(test)]
 mod tests;
+
+// Verification hooks: constructors and readers for the private `Cluster`,
+// `Helix` and `Track` internals. Compiled only with the `verif-hooks` feature.
+#[cfg(feature = "verif-hooks")]
+pub mod verif_hooks {
+    use super::*;
+
+    pub fn cluster_from_points(points: Vec<SpacePoint>) -> Cluster {
+        Cluster(points)
+    }
+    // Parameters are [x0, y0, z0, r, phi0, h] in meters and radians.
+    pub fn track_from_helix(params: [f64; 6], t_inner: f64, t_outer: f64) -> Track {
+        Track {
+            helix: Helix {
+                x0: Length::new::<meter>(params[0]),
+                y0: Length::new::<meter>(params[1]),
+                z0: Length::new::<meter>(params[2]),
+                r: Length::new::<meter>(params[3]),
+                phi0: Angle::new::<radian>(params[4]),
+                h: Length::new::<meter>(params[5]),
+            },
+            t_inner,
+            t_outer,
+        }
+    }
+    pub fn helix_params(track: &Track) -> [f64; 6] {
+        let helix = track.helix;
+        [
+            helix.x0.get::<meter>(),
+            helix.y0.get::<meter>(),
+            helix.z0.get::<meter>(),
+            helix.r.get::<meter>(),
+            helix.phi0.get::<radian>(),
+            helix.h.get::<meter>(),
+        ]
+    }
+    // Same tolerance and iteration limit as every caller in this crate.
+    pub fn closest_t(track: &Track, point: SpacePoint) -> f64 {
+        track.helix.closest_t(point, f64::EPSILON, 20)
+    }
+}
